@@ -971,6 +971,44 @@ def mon_C14(run):
     return bad[:1]
 
 
+def mon_C15(case):
+    """pools on SyncWrapper: independent reading of the property on the history the harness
+    reports with every operation (operations and their real results so far)"""
+    o = case["out"] or ""
+    for x in case["extra"]:
+        if x.startswith("spx backend"):
+            return [(0, x[4:])]
+    hist = next((x[len("spx history "):] for x in case["extra"] if x.startswith("spx history ")), None)
+    if hist is None or not case["in"].startswith("sp get"):
+        return []
+    ops = [h.strip() for h in hist.split(";")]
+    spoiled, held = set(), set()
+    for h in ops[:-1]:
+        if h.startswith("get=ok:"):
+            held.add(h[7:])
+        elif h.startswith("ret "):
+            held.discard(h[4:])
+        elif h.startswith("spoil "):
+            _, cid, how = h.split()
+            if how != "cancelled":
+                spoiled.add(cid)
+    r = kvs(o)
+    res = r.get("res", "")
+    mx = int(r.get("max", "0"))
+    if res.startswith("ok:"):
+        cid = res[3:]
+        if cid in spoiled:
+            return [(0, f"connection {cid} was spoiled earlier ({hist}) and is handed out again")]
+        if cid in held:
+            return [(0, f"connection {cid} is handed out twice at once ({hist})")]
+    else:
+        if len(held) < mx:
+            return [(0, f"get() failed with {res} although only {len(held)} of {mx} connections are checked out ({hist})")]
+    if int(r.get("size", "0")) > mx:
+        return [(0, f"size {r.get('size')} exceeds max_size {mx}")]
+    return []
+
+
 def mon_C19(case):
     """redis configs: independent re-statement of the property on the harness's own input
     description and the implementation's answer (never looks at the model)"""
@@ -1346,4 +1384,4 @@ def mon_C08(run):
     return bad[:1]
 
 
-MONITORS = {"C14": mon_C14, "C18": mon_C18, "C19": mon_C19, "C05": mon_C05, "C12": mon_C12, "C08": mon_C08, "C13": mon_C13, "C04": mon_C04, "C07": mon_C07, "C06": mon_C06, "C09": mon_C09, "C03": mon_C03, "C10": mon_C10, "C01": mon_C01, "C02": mon_C02, "C11": mon_C11}
+MONITORS = {"C14": mon_C14, "C15": mon_C15, "C18": mon_C18, "C19": mon_C19, "C05": mon_C05, "C12": mon_C12, "C08": mon_C08, "C13": mon_C13, "C04": mon_C04, "C07": mon_C07, "C06": mon_C06, "C09": mon_C09, "C03": mon_C03, "C10": mon_C10, "C01": mon_C01, "C02": mon_C02, "C11": mon_C11}
